@@ -304,6 +304,7 @@ func (st *state) checkBlockBits(site string, bits bitmap1024.Bit1024, start uint
 	}
 	if setOf(bits) != rb.set {
 		st.hit(site, "membership", fmt.Sprintf("block offsets %v, expected %v", c08x.Members1024(bits), members(&rb.set)))
+		rb.set = setOf(bits) // resynchronise, so that one root cause is not reported again by later operations
 	}
 }
 
